@@ -17,6 +17,7 @@ import (
 
 	"github.com/KevoDB/kevo/pkg/common/log"
 	"github.com/KevoDB/kevo/pkg/config"
+	"github.com/KevoDB/kevo/pkg/verifhook"
 )
 
 const (
@@ -147,6 +148,7 @@ func NewWAL(cfg *config.Config, dir string) (*WAL, error) {
 		status:       WALStatusActive,
 		observers:    make(map[string]WALEntryObserver),
 	}
+	verifhook.At("wal.new")
 
 	return wal, nil
 }
@@ -275,6 +277,8 @@ func (w *WAL) Append(entryType uint8, key, value []byte) (uint64, error) {
 		}
 	}
 
+	verifhook.At1("wal.append.written", seqNum)
+
 	// Create an entry object for notification
 	entry := &Entry{
 		SequenceNumber: seqNum,
@@ -290,6 +294,7 @@ func (w *WAL) Append(entryType uint8, key, value []byte) (uint64, error) {
 	if err := w.maybeSync(); err != nil {
 		return 0, err
 	}
+	verifhook.At1("wal.append.done", seqNum)
 
 	return seqNum, nil
 }
@@ -353,6 +358,8 @@ func (w *WAL) AppendWithSequence(entryType uint8, key, value []byte, sequenceNum
 		}
 	}
 
+	verifhook.At1("wal.append.written", seqNum)
+
 	// Create an entry object for notification
 	entry := &Entry{
 		SequenceNumber: seqNum,
@@ -368,6 +375,7 @@ func (w *WAL) AppendWithSequence(entryType uint8, key, value []byte, sequenceNum
 	if err := w.maybeSync(); err != nil {
 		return 0, err
 	}
+	verifhook.At1("wal.append.done", seqNum)
 
 	return seqNum, nil
 }
@@ -613,13 +621,16 @@ func (w *WAL) syncLocked() error {
 		return ErrWALRotating
 	}
 
+	verifhook.At("wal.sync.pre")
 	if err := w.writer.Flush(); err != nil {
 		return fmt.Errorf("failed to flush WAL buffer: %w", err)
 	}
+	verifhook.At("wal.sync.flushed")
 
 	if err := w.file.Sync(); err != nil {
 		return fmt.Errorf("failed to sync WAL file: %w", err)
 	}
+	verifhook.At1("wal.sync.done", w.nextSequence-1)
 
 	w.lastSync = time.Now()
 	w.batchByteSize = 0
@@ -708,10 +719,13 @@ func (w *WAL) AppendBatch(entries []*Entry) (uint64, error) {
 		if err := w.writeRecord(RecordTypeFull, entry.Type, startSeqNum, entry.Key, entry.Value); err != nil {
 			return 0, fmt.Errorf("failed to write entry %d: %w", i, err)
 		}
+		verifhook.At2("wal.batch.rec", startSeqNum, uint64(i))
 	}
 
 	// Update next sequence number by 1 (not by batch size)
 	w.nextSequence = startSeqNum + 1
+
+	verifhook.At2("wal.batch.written", startSeqNum, uint64(len(entries)))
 
 	// Notify observers about the batch
 	w.notifyBatchObservers(startSeqNum, entries)
@@ -720,6 +734,7 @@ func (w *WAL) AppendBatch(entries []*Entry) (uint64, error) {
 	if err := w.maybeSync(); err != nil {
 		return 0, err
 	}
+	verifhook.At2("wal.batch.done", startSeqNum, uint64(len(entries)))
 
 	return startSeqNum, nil
 }
@@ -796,6 +811,7 @@ func (w *WAL) AppendBatchWithSequence(entries []*Entry, startSequence uint64) (u
 		if err := w.writeRecord(RecordTypeFull, entry.Type, startSeqNum, entry.Key, entry.Value); err != nil {
 			return 0, fmt.Errorf("failed to write entry %d: %w", i, err)
 		}
+		verifhook.At2("wal.batch.rec", startSeqNum, uint64(i))
 	}
 
 	// Update next sequence number if the provided sequence would advance it
@@ -804,6 +820,8 @@ func (w *WAL) AppendBatchWithSequence(entries []*Entry, startSequence uint64) (u
 		w.nextSequence = endSeq
 	}
 
+	verifhook.At2("wal.batch.written", startSeqNum, uint64(len(entries)))
+
 	// Notify observers about the batch
 	w.notifyBatchObservers(startSeqNum, entries)
 
@@ -811,6 +829,7 @@ func (w *WAL) AppendBatchWithSequence(entries []*Entry, startSequence uint64) (u
 	if err := w.maybeSync(); err != nil {
 		return 0, err
 	}
+	verifhook.At2("wal.batch.done", startSeqNum, uint64(len(entries)))
 
 	return startSeqNum, nil
 }
@@ -827,13 +846,16 @@ func (w *WAL) Close() error {
 
 	// Flush the buffer first before changing status
 	// This ensures all data is flushed to disk even if status is changing
+	verifhook.At("wal.close.pre")
 	if err := w.writer.Flush(); err != nil {
 		return fmt.Errorf("failed to flush WAL buffer during close: %w", err)
 	}
+	verifhook.At("wal.close.flushed")
 
 	if err := w.file.Sync(); err != nil {
 		return fmt.Errorf("failed to sync WAL file during close: %w", err)
 	}
+	verifhook.At1("wal.close.synced", w.nextSequence-1)
 
 	// Now mark as rotating to block new operations
 	atomic.StoreInt32(&w.status, WALStatusRotating)
@@ -862,6 +884,7 @@ func (w *WAL) UpdateNextSequence(nextSeq uint64) {
 	w.mu.Lock()
 	defer w.mu.Unlock()
 
+	verifhook.At2("wal.setnext", w.nextSequence, nextSeq)
 	if nextSeq > w.nextSequence {
 		// Check if the recovered sequence number is dangerously close to overflow
 		if nextSeq >= SequenceWarningThreshold && !w.overflowWarning {
